@@ -116,14 +116,18 @@ theorem roNext_tracks {all : List DataSlab} (L : LeavesOk all) :
 
 /-- `RArr a loaded it l`: the object `it` on array `a` still has to hand out exactly `l`.
     * the empty iterator: nothing;
-    * the mutable iterator at `nextIndex = i`, `lastIndex = last`: positions `i … last-1` of the array;
-    * the read-only iterator: `ROk` (the run of `remainingCount` elements from its cursor);
+    * the mutable iterator at `nextIndex = i`, `lastIndex = last`: positions `i … last-1` of the array
+      (on an array whose `Get` agrees with the enumeration: from `ArrInv`);
+    * the read-only iterator: `ROk` (the run of `remainingCount` elements from its cursor; on an array
+      whose leaf list is linked, has pairwise different defined IDs and no empty non-first leaf:
+      `LeavesOk`, from `ArrInv`);
     * the loaded-value iterator: what its cursors still cover (`IterA.rem`), with the weight bound
       that makes the fuel of `ArrIter.next` sufficient. -/
 def RArr (a : Arr) (loaded : SlabID → Bool) : ArrIter → List Elem → Prop
   | .empty _, l => l = []
-  | .mut i last, l => i ≤ last ∧ last ≤ a.toList.length ∧ l = (a.toList.drop i).take (last - i)
-  | .ro r, l => ROk (Arr.leaves a.d a.root) r l
+  | .mut i last, l => (∀ j, j < a.toList.length → a.get j = .ok (a.toList.getD j default)) ∧
+      i ≤ last ∧ last ≤ a.toList.length ∧ l = (a.toList.drop i).take (last - i)
+  | .ro r, l => LeavesOk (Arr.leaves a.d a.root) ∧ ROk (Arr.leaves a.d a.root) r l
   | .loaded it, l => IterA.rem loaded it = l ∧
       IterA.wParents it.parents < 2 * ATree.slabCount a.d a.root + 2
 
@@ -151,21 +155,20 @@ theorem take_drop_succ {α : Type} (L : List α) (i k : Nat) (hi : i < L.length)
     (L.drop i).take (k + 1) = L[i] :: (L.drop (i + 1)).take k := by
   rw [List.drop_eq_getElem_cons hi, List.take_succ_cons]
 
-theorem next_tracks (hT : legalThreshold T = true) (a : Arr) (ctr : Nat) (h : ArrInv T a ctr)
-    (loaded : SlabID → Bool) : Tracks (ArrIter.next a loaded) (RArr a loaded) where
+theorem next_tracks (a : Arr) (loaded : SlabID → Bool) : Tracks (ArrIter.next a loaded) (RArr a loaded) where
   cons := by
     intro it v l hR
     cases it with
     | empty ro => cases (show v :: l = [] from hR)
     | «mut» i last =>
-      obtain ⟨h1, h2, h3⟩ : i ≤ last ∧ last ≤ a.toList.length ∧ v :: l = (a.toList.drop i).take (last - i) := hR
+      obtain ⟨hg, h1, h2, h3⟩ : (∀ j, j < a.toList.length → a.get j = .ok (a.toList.getD j default)) ∧
+        i ≤ last ∧ last ≤ a.toList.length ∧ v :: l = (a.toList.drop i).take (last - i) := hR
       have hlt : i < last := by
         rcases Nat.lt_or_ge i last with hlt | hge
         · exact hlt
         · have : last - i = 0 := by omega
           rw [this] at h3; cases h3
-      have hacc := C05.access_agree T hT a ctr h
-      have hget := hacc.2.2.2 i (by rw [hacc.2.2.1]; omega)
+      have hget := hg i (by omega)
       obtain ⟨k, hk⟩ : ∃ k, last - i = k + 1 := ⟨last - i - 1, by omega⟩
       rw [hk, take_drop_succ _ _ _ (by omega)] at h3
       obtain ⟨hv, hl⟩ := List.cons.inj h3
@@ -175,13 +178,14 @@ theorem next_tracks (hT : legalThreshold T = true) (a : Arr) (ctr : Nat) (h : Ar
         simp only
         rw [hv, List.getD_eq_getElem?_getD, List.getElem?_eq_getElem (by omega)]
         rfl
-      · refine ⟨by omega, h2, ?_⟩
+      · refine ⟨hg, by omega, h2, ?_⟩
         rw [hl]
         congr 1
         omega
     | ro r =>
-      obtain ⟨r', hr, hR'⟩ := (roNext_tracks (leavesOk hT h)).cons r v l hR
-      exact ⟨.ro r', by simp only [ArrIter.next, hr], hR'⟩
+      obtain ⟨L, hR⟩ : LeavesOk (Arr.leaves a.d a.root) ∧ _ := hR
+      obtain ⟨r', hr, hR'⟩ := (roNext_tracks L).cons r v l hR
+      exact ⟨.ro r', by simp only [ArrIter.next, hr], L, hR'⟩
     | loaded it =>
       obtain ⟨hrem, hw⟩ : IterA.rem loaded it = v :: l ∧ _ := hR
       have hs := IterA.next_spec loaded _ _ it hw hw
@@ -205,19 +209,21 @@ theorem next_tracks (hT : legalThreshold T = true) (a : Arr) (ctr : Nat) (h : Ar
     cases it with
     | empty ro => exact ⟨.empty ro, rfl, rfl⟩
     | «mut» i last =>
-      obtain ⟨h1, h2, h3⟩ : i ≤ last ∧ last ≤ a.toList.length ∧ [] = (a.toList.drop i).take (last - i) := hR
+      obtain ⟨hg, h1, h2, h3⟩ : (∀ j, j < a.toList.length → a.get j = .ok (a.toList.getD j default)) ∧
+        i ≤ last ∧ last ≤ a.toList.length ∧ [] = (a.toList.drop i).take (last - i) := hR
       have heq : i = last := by
         rcases Nat.lt_or_ge i last with hlt | hge
         · obtain ⟨k, hk⟩ : ∃ k, last - i = k + 1 := ⟨last - i - 1, by omega⟩
           rw [hk, take_drop_succ _ _ _ (by omega)] at h3
           cases h3
         · omega
-      refine ⟨.mut i last, ?_, h1, h2, h3⟩
+      refine ⟨.mut i last, ?_, hg, h1, h2, h3⟩
       simp only [ArrIter.next]
       rw [if_pos heq]
     | ro r =>
-      obtain ⟨r', hr, hR'⟩ := (roNext_tracks (leavesOk hT h)).nil r hR
-      exact ⟨.ro r', by simp only [ArrIter.next, hr], hR'⟩
+      obtain ⟨L, hR⟩ : LeavesOk (Arr.leaves a.d a.root) ∧ _ := hR
+      obtain ⟨r', hr, hR'⟩ := (roNext_tracks L).nil r hR
+      exact ⟨.ro r', by simp only [ArrIter.next, hr], L, hR'⟩
     | loaded it =>
       obtain ⟨hrem, hw⟩ : IterA.rem loaded it = [] ∧ _ := hR
       have hs := IterA.next_spec loaded _ _ it hw hw
@@ -306,6 +312,11 @@ theorem expected_length_le (a : Arr) (ctr : Nat) (h : ArrInv T a ctr)
   | roRange lo hi => simp only [Arr.Flavour.expected, List.length_take, List.length_drop]; omega
   | loaded => exact (IterA.iterLoaded_sublist loaded a.d a.root).length_le
 
+theorem makeLoaded_spec (loaded : SlabID → Bool) (a : Arr) :
+    ∃ it, a.makeIterator .loaded = .ok it ∧ RArr a loaded it (a.iterLoaded loaded) ∧ it.canMutate = false := by
+  obtain ⟨h1, h2⟩ := loadedIterator_spec loaded a
+  exact ⟨.loaded a.loadedIterator, rfl, ⟨h1, h2⟩, rfl⟩
+
 /-- every way of making an iterator object succeeds (valid range) and the object has the list form
     of its flavour to hand out; `CanMutate()` is as the flavour says -/
 theorem makeIterator_spec (hT : legalThreshold T = true) (a : Arr) (ctr : Nat) (h : ArrInv T a ctr)
@@ -313,6 +324,11 @@ theorem makeIterator_spec (hT : legalThreshold T = true) (a : Arr) (ctr : Nat) (
     ∃ it, a.makeIterator f = .ok it ∧ RArr a loaded it (f.expected a loaded) ∧
       it.canMutate = f.mutable := by
   have hcnt := IterA.count_eq_length h
+  have hL := leavesOk hT h
+  have hg : ∀ j, j < a.toList.length → a.get j = .ok (a.toList.getD j default) := by
+    have hacc := C05.access_agree T hT a ctr h
+    intro j hj
+    exact hacc.2.2.2 j (by rw [hacc.2.2.1]; exact hj)
   cases f with
   | «mut» =>
     show ∃ it, Except.ok a.iterator = .ok it ∧ _
@@ -321,7 +337,7 @@ theorem makeIterator_spec (hT : legalThreshold T = true) (a : Arr) (ctr : Nat) (
     · refine ⟨.empty false, by rw [if_pos h0], ?_, rfl⟩
       show a.toList = []
       exact List.eq_nil_of_length_eq_zero (by omega)
-    · refine ⟨.mut 0 a.count, by rw [if_neg h0], ⟨Nat.zero_le _, by omega, ?_⟩, rfl⟩
+    · refine ⟨.mut 0 a.count, by rw [if_neg h0], ⟨hg, Nat.zero_le _, by omega, ?_⟩, rfl⟩
       show a.toList = _
       rw [List.drop_zero, Nat.sub_zero, hcnt, List.take_length]
   | ro =>
@@ -332,7 +348,7 @@ theorem makeIterator_spec (hT : legalThreshold T = true) (a : Arr) (ctr : Nat) (
       show a.toList = []
       exact List.eq_nil_of_length_eq_zero (by omega)
     · obtain ⟨first, rest, hl, hfirst⟩ := firstDataSlab_spec hT a.d true a.root h.tree
-      refine ⟨.ro ⟨first, 0, a.count⟩, ?_, ?_, rfl⟩
+      refine ⟨.ro ⟨first, 0, a.count⟩, ?_, ⟨hL, ?_⟩, rfl⟩
       · rw [if_neg h0, hfirst]; rfl
       · have := rok_at a [] first rest hl 0 a.count (Nat.zero_le _) (by simp; omega)
         simp only [List.flatMap_nil, List.length_nil, Nat.add_zero, List.drop_zero] at this
@@ -350,7 +366,7 @@ theorem makeIterator_spec (hT : legalThreshold T = true) (a : Arr) (ctr : Nat) (
         rw [if_pos he]; rfl
       · show (a.toList.drop lo).take (hi - lo) = []
         rw [he, Nat.sub_self, List.take_zero]
-    · refine ⟨.mut lo hi, ?_, ⟨h1, by omega, rfl⟩, rfl⟩
+    · refine ⟨.mut lo hi, ?_, ⟨hg, h1, by omega, rfl⟩, rfl⟩
       show (if hi = lo then (pure (.empty false) : Except AErr ArrIter) else _) = _
       rw [if_neg he]; rfl
   | roRange lo hi =>
@@ -366,18 +382,19 @@ theorem makeIterator_spec (hT : legalThreshold T = true) (a : Arr) (ctr : Nat) (
         rw [he, List.take_zero]
     · show ∃ it, (if hi - lo = 0 then (pure (.empty true) : Except AErr ArrIter) else _) = .ok it ∧ _
       rw [if_neg he]
+      clear hg
       obtain ⟨d, t, ty⟩ := a
       cases d with
       | zero =>
-        revert h hcnt h2; refine forall_ofData ?_ t; intro s h h2 hcnt
+        revert h hcnt h2 hL; refine forall_ofData ?_ t; intro s h hcnt hL h2
         have hl : Arr.leaves (⟨0, ofData s, ty⟩ : Arr).d (⟨0, ofData s, ty⟩ : Arr).root = [] ++ s :: [] := rfl
         have hlen : (⟨0, ofData s, ty⟩ : Arr).toList.length = s.elems.length := rfl
-        refine ⟨.ro ⟨s, lo, hi - lo⟩, rfl, ?_, rfl⟩
+        refine ⟨.ro ⟨s, lo, hi - lo⟩, rfl, ⟨hL, ?_⟩, rfl⟩
         have := rok_at (⟨0, ofData s, ty⟩ : Arr) [] s [] hl lo (hi - lo) (by omega) (by simp; omega)
         simp only [List.flatMap_nil, List.length_nil, Nat.zero_add] at this
         exact this
       | succ d =>
-        revert h hcnt h2; refine forall_ofMeta ?_ t; intro m h h2 hcnt
+        revert h hcnt h2 hL; refine forall_ofMeta ?_ t; intro m h hcnt hL h2
         show ∃ it, (if lo = 0 then
             (Arr.firstDataSlab (d + 1) (ofMeta m) >>= fun s =>
               (pure (.ro ⟨s, 0, hi - lo⟩) : Except AErr ArrIter))
@@ -388,7 +405,7 @@ theorem makeIterator_spec (hT : legalThreshold T = true) (a : Arr) (ctr : Nat) (
         · rw [if_pos hlo]
           obtain ⟨first, rest, hl, hfirst⟩ := firstDataSlab_spec hT (d + 1) true (ofMeta m) h.tree
           rw [hfirst]
-          refine ⟨.ro ⟨first, 0, hi - lo⟩, rfl, ?_, rfl⟩
+          refine ⟨.ro ⟨first, 0, hi - lo⟩, rfl, ⟨hL, ?_⟩, rfl⟩
           have := rok_at (⟨d + 1, ofMeta m, ty⟩ : Arr) [] first rest hl 0 (hi - lo) (Nat.zero_le _)
             (by simp; omega)
           simp only [List.flatMap_nil, List.length_nil, Nat.add_zero] at this
@@ -401,7 +418,7 @@ theorem makeIterator_spec (hT : legalThreshold T = true) (a : Arr) (ctr : Nat) (
           obtain ⟨pre, s, rest, hl, hle, hlt, hds⟩ :=
             IterA.dataSlabWithIndex_spec hT (d + 1) (ofMeta m) true lo hs (by rw [← hlen]; omega)
           rw [hds]
-          refine ⟨.ro ⟨s, lo - (pre.flatMap (·.elems)).length, hi - lo⟩, rfl, ?_, rfl⟩
+          refine ⟨.ro ⟨s, lo - (pre.flatMap (·.elems)).length, hi - lo⟩, rfl, ⟨hL, ?_⟩, rfl⟩
           have := rok_at (⟨d + 1, ofMeta m, ty⟩ : Arr) pre s rest hl (lo - (pre.flatMap (·.elems)).length)
             (hi - lo) (by omega) (by omega)
           have e : (pre.flatMap (·.elems)).length + (lo - (pre.flatMap (·.elems)).length) = lo := by omega
